@@ -664,6 +664,14 @@ void GridLocalPolynomial::expandGrid(const std::vector<int> &point, const std::v
         points = MultiIndexSet((size_t) num_dimensions, std::vector<int>(point));
         values = StorageSet(num_outputs, 1, std::vector<double>(value));
         surpluses = Data2D<double>(num_outputs, 1, std::vector<double>(value)); // one value is its own surplus
+    }else if (effrule == RuleLocal::erule::semilocalp and std::any_of(point.begin(), point.end(), [](int p)->bool{ return (p == 1 or p == 2); })){
+        // the two level-one semi-local functions are supported on the whole domain and affect points that are not their descendants,
+        // the incremental update below would miss those points, recompute all surpluses (same as the batch load)
+        values.addValues(points, MultiIndexSet(num_dimensions, std::vector<int>(point)), value.data());
+        points.addSortedIndexes(point);
+        buildTree();
+        recomputeSurpluses<effrule>();
+        return;
     }else{ // merge with existing points
         // compute the surplus for the point
         std::vector<double> xnode(num_dimensions);
